@@ -93,6 +93,8 @@ def run_c20x(case):
         doc = {"title": "t", "logsource": {"category": "c"}, "detection": {"sel": {"f|re|" + mods: "a.b"}, "condition": "sel"}}
         return list(cls().convert(SigmaCollection.from_dicts([doc])))
     names = [FIELD_NAMES[n - 1] for n in case["names"]]
+    if k in ("badcond", "filtermissing", "convnum", "validatorset", "unrefcond"):
+        return run_errors(k, case, names)
     if k == "strict":
         pipe = ProcessingPipeline.from_dict({"name": "p", "priority": 1, "transformations": [
             {"type": "field_name_mapping", "mapping": {FIELD_NAMES[n - 1]: "m_" + FIELD_NAMES[n - 1] for n in case["mapped"]}},
@@ -120,6 +122,62 @@ def run_c20x(case):
         rule = SigmaRule.from_dict(doc)
         issues = [type(i).__name__ + ":" + str(getattr(i, "fieldname", "")) for i in CustomAttributesValidator().validate(rule)]
         return list(TextQueryTestBackend(pipe).convert_rule(rule)) + [str(list(rule.to_dict().keys()))] + issues
+    raise ValueError(k)
+
+
+def run_errors(k, case, names):
+    """Error records (kind, text) of scenarios whose messages are built from sets or next to random names."""
+    from sigma.backends.test import TextQueryTestBackend
+    from sigma.collection import SigmaCollection
+    from sigma.exceptions import SigmaError
+    from sigma.processing.pipeline import ProcessingPipeline
+
+    def text(e):
+        return type(e).__name__ + ": " + str(e)
+
+    rule = {"title": "t", "logsource": {"category": "c"}, "detection": {"sel": {"f": "abc"}, "flt": {"g": 1}, "condition": "sel and not flt"}}
+    if k in ("badcond", "filtermissing"):
+        docs = [dict(rule)]
+        pipe = None
+        if k == "badcond":
+            docs[0] = dict(rule, detection=dict(rule["detection"], condition="sel and not (flt"))
+            if 1 in case["mapped"]:
+                docs.append({"title": "f", "logsource": {"category": "c"}, "filter": {"rules": "any", "selection": {"h": 2}, "condition": "not selection"}})
+            if 2 in case["mapped"]:
+                pipe = ProcessingPipeline.from_dict({"name": "p", "priority": 1, "transformations": [{"type": "add_condition", "conditions": {"idx": "main"}}]})
+        else:
+            docs.append({"title": "f", "logsource": {"category": "c"}, "filter": {"rules": "any", "selection": {"h": 2}, "condition": "selection and missing"}})
+        b = TextQueryTestBackend(pipe, collect_errors=True)
+        out = list(b.convert(SigmaCollection.from_dicts(docs)))
+        return out + [text(e) for _, e in b.errors]
+    if k == "convnum":
+        pipe = ProcessingPipeline.from_dict({"name": "p", "priority": 1, "transformations": [
+            {"id": names[0], "type": "field_name_suffix", "suffix": "_a"},
+            {"id": names[1], "type": "field_name_suffix", "suffix": "_b"},
+            {"id": names[2], "type": "add_condition", "conditions": {"idx": "main"}},
+            {"type": "convert_type", "target_type": "num"}]})
+        b = TextQueryTestBackend(pipe, collect_errors=True)
+        out = list(b.convert(SigmaCollection.from_dicts([rule])))
+        return out + [text(e) for _, e in b.errors]
+    if k == "validatorset":
+        from sigma.validation import SigmaValidator
+        from sigma.validators.core import validators as VALIDATORS
+
+        vnames = sorted(VALIDATORS)[: len(FIELD_NAMES)]
+        try:
+            SigmaValidator.from_dict({"validators": [vnames[n - 1] for n in case["names"]] + ["-no_such_validator"]}, VALIDATORS)
+            return ["no error"]
+        except SigmaError as e:
+            return [text(e)]
+    if k == "unrefcond":
+        try:
+            ProcessingPipeline.from_dict({"name": "p", "priority": 1, "transformations": [
+                {"type": "field_name_suffix", "suffix": "_a",
+                 "rule_conditions": {"c_" + n.replace(".", "_"): {"type": "logsource", "category": n} for n in names},
+                 "rule_cond_expr": "c_" + names[0].replace(".", "_")}]})
+            return ["no error"]
+        except SigmaError as e:
+            return [text(e)]
     raise ValueError(k)
 
 
